@@ -4,7 +4,7 @@ import json
 
 def _ops(job):
     sc = job.get("scripts") or [[], []]
-    return [(s, op) for s in (0, 1) for op in sc[s]]
+    return [(s, op) for s in (0, 1) for op in sc[s]] + [(s, op) for s, op in (job.get("mid") or [])]
 
 
 def _targets(op):
@@ -34,6 +34,10 @@ def classify(c):
         # id take-over on a path-id side (b removed, a renamed onto b) while the peer deletes/edits b: the ousted entry keeps
         # sitting in the pending set with no id on either side / without any change flag
         return "G18-id-take-over-leaves-ghost-entry-in-pending-set"
+    if kind == "midstep-lost" and job.get("mid"):
+        # check-then-act: the engine has read one side (hash/refresh/download) and is about to upload to the other when the
+        # peer's user writes that file; the upload overwrites the peer's new bytes without a conflict being noticed
+        return "G19-peer-edit-between-engine-read-and-upload-is-overwritten"
     ops = _ops(job)
     opts = job.get("opts") or {}
     if opts.get("resolver") == "merged_keep" and kind == "noquiesce":
@@ -73,7 +77,7 @@ def classify(c):
         # name) and the old object's events are delivered late, duplicated or after the new object's create event
         return "G11-name-reuse-with-late-events"
     for side in (0, 1):
-        sc = (job.get("scripts") or [[], []])[side]
+        sc = list((job.get("scripts") or [[], []])[side]) + [o for s_, o in (job.get("mid") or []) if s_ == side]
         for i, op in enumerate(sc):
             if op[0] == "rename" and job.get("cfg") in ("po", "pci", "pp", "op", "plci") and \
                     any(o2[0] == "rename" and o2[2] == op[1] and o2[1] == op[2] for o2 in sc[i + 1:]):
